@@ -129,7 +129,11 @@ func coqUpload(p *program, o *observation) (string, bool) {
 	}
 	addTab("")
 	for _, f := range sh.MPFiles {
-		files = append(files, fmt.Sprintf("mkFile %s %s %s %s %s", hk.CoqStr(f.Param), hk.CoqStr(f.Name), coqKind[f.Kind], hk.CoqStr(f.Content), hk.CoqBool(p.Exec > 0))) // used by an earlier execution
+		if f.Skip > 0 { // the model computes what is left of the source at hand-over
+			files = append(files, fmt.Sprintf("mfile_at %s %s %s (mkSrc %s %d%%nat) %s", hk.CoqStr(f.Param), hk.CoqStr(f.Name), coqKind[f.Kind], hk.CoqStr(f.handedOver()), f.Skip, hk.CoqBool(p.Exec > 0)))
+		} else {
+			files = append(files, fmt.Sprintf("mkFile %s %s %s %s %s", hk.CoqStr(f.Param), hk.CoqStr(f.Name), coqKind[f.Kind], hk.CoqStr(f.Content), hk.CoqBool(p.Exec > 0))) // used by an earlier execution
+		}
 		addTab(f.Content)
 	}
 	var obs []string
